@@ -16,7 +16,8 @@ static Case gen_compress_case(uint64_t seed, int tier, const char *prop, bool bo
     // inputs whose run-length-encoded size crosses the capacity at an interesting item, possibly several chunks long
     Bytes d;
     int pieces = 1 + (int)rng.below(3);
-    for (int i = 0; i < pieces; i++) d += gen::capacity_edge(rng, level, seq);
+    if (seq && rng.below(2)) d = gen::seq_edge(rng, level);
+    else for (int i = 0; i < pieces; i++) d += gen::capacity_edge(rng, level, seq);
     if (rng.below(2)) d = gen::runs_around_limits(rng, rng.below(chunk), 2) + d;
     c.data = d; c.data_desc = "capacity-edge x" + std::to_string(pieces) + " " + std::to_string(d.size()) + "B";
   } else c.data = gen::input(rng, level, tier ? std::min<size_t>(3 * chunk, 2500000) : std::min<size_t>(2 * chunk + 5000, 450000), &c.data_desc);
@@ -209,6 +210,7 @@ static DecRun run_dec(const RunCfg &cfg, const Bytes &z, size_t out_hint, Ctx &c
 struct C05 : Driver {
   const char *prop() const override { return "C05"; }
   const char *level() const override { return "exploration"; }
+  const char *variants(int) const override { return "plain ndebug/4"; }   // assertion-free build = the shipped semantics
   uint64_t ncases(int tier) const override { return tier ? 500000 : 40000; }
   std::string rule() const override {
     return "case = one byte string (structured streams from a generator that exposes every degree of freedom, with one planted defect per field kind: delta step leaving 1-20 upwards/downwards/at the start value, selector = table count, "
@@ -221,7 +223,12 @@ struct C05 : Driver {
   Case gen(uint64_t seed, int tier) const override {
     Rng rng(seed);
     Case c; c.prop = "C05";
-    c.data = gen_dec_input(rng, tier, 1, &c.data_desc);
+    if (rng.below(tier ? 600 : 2500) == 0) {
+      int level = 1 + (int)rng.below(9);
+      size_t n = (size_t)level * 100000 + 1 + rng.below(2);     // one or two bytes more than the declared size allows
+      c.data = bz::gen_full_block(rng, n, level, false).bytes;
+      c.data_desc = "overfull block " + std::to_string(n) + " symbols, level " + std::to_string(level);
+    } else c.data = gen_dec_input(rng, tier, 1, &c.data_desc);
     size_t hint = c.data.size() * 20 + 1000;
     for (int k = 0; k < 2; k++) c.runs.push_back(dec_cfg_for(rng, c.data, hint, true));
     return c;
@@ -253,6 +260,7 @@ static Registrar r05(new C05);
 struct C06 : Driver {
   const char *prop() const override { return "C06"; }
   const char *level() const override { return "exploration"; }
+  const char *variants(int) const override { return "plain ndebug/4"; }   // assertion-free build = the shipped semantics
   uint64_t ncases(int tier) const override { return tier ? 300000 : 24000; }
   std::string rule() const override {
     return "case = one valid file: generated streams varying every legal degree of freedom (2-6 arbitrary complete tables incl. 20-bit codes, arbitrary selector sequences, surplus selectors up to 32767, zig-zag delta paths touching 1 and 20, "
@@ -263,8 +271,14 @@ struct C06 : Driver {
   Case gen(uint64_t seed, int tier) const override {
     Rng rng(seed);
     Case c; c.prop = "C06";
-    if (tier && rng.below(400) == 0) {
-      // a full 900000-byte block with the largest possible primary index region
+    if (rng.below(tier ? 400 : 1000) == 0) {
+      // the largest legal blocks: exactly level*100000 (or a few fewer) decoded bytes from as many non-run symbols,
+      // i.e. every one of the 18001 coding groups at level 9; primary index at the very end half of the time
+      int level = rng.below(2) ? 9 : 1 + (int)rng.below(9);
+      size_t n = (size_t)level * 100000 - (rng.below(2) ? 0 : rng.below(60));
+      c.data = bz::gen_full_block(rng, n, level, rng.below(2)).bytes;
+      c.data_desc = "full block " + std::to_string(n) + " symbols, level " + std::to_string(level);
+    } else if (tier && rng.below(400) == 0) {
       Bytes p = gen::random_bytes(rng, 899990 + rng.below(11), 2 + (unsigned)rng.below(3));
       c.data = bz::libbz2_encode(p, 9); c.data_desc = "libbz2 full level-9 block";
     } else c.data = gen_dec_input(rng, tier, 0, &c.data_desc);
@@ -303,6 +317,7 @@ static Registrar r06(new C06);
 struct C07 : Driver {
   const char *prop() const override { return "C07"; }
   const char *level() const override { return "fault_enumeration"; }
+  const char *variants(int) const override { return "plain ndebug/4"; }   // assertion-free build = the shipped semantics
   uint64_t ncases(int tier) const override { return tier ? 150000 : 12000; }
   bool exhaustive() const override { return true; }
   std::string exhaustive_note() const override { return "every truncation length 0..len-1 of each listed small valid multi-block/multi-stream file (about 1 in 125 cases: ~96 files quick, ~1000 thorough), each under 3 schedules x 2 input block sizes; corruptions and configurations are sampled"; }
@@ -390,6 +405,7 @@ static Registrar r07(new C07);
 struct C10 : Driver {
   const char *prop() const override { return "C10"; }
   const char *level() const override { return "exploration"; }
+  const char *variants(int) const override { return "plain ndebug/4"; }   // assertion-free build = the shipped semantics
   uint64_t ncases(int tier) const override { return tier ? 800000 : 60000; }
   std::string rule() const override {
     return "case = a file with planted copies of the 48-bit block-header pattern: (0) pattern + 32 arbitrary bits spelled as legal symbols inside Huffman-coded data (flat 8-bit tables make every byte string a legal symbol sequence), "
